@@ -23,6 +23,9 @@ GIT_UNHANDLED = ("enoent", "eacces", "badbytes")
 STRAY = ("README", "meters.hh~", ".meters.hh.swp", "BUILD.bazel", "notes.txt", "backup.d", "#feet.hh#", "units.hh.orig", "old_units.lnk", "seconds.hh.rej", ".DS_Store", "CMakeLists.txt.bak")
 ENCODINGS = ("utf-8", "cp1252", "latin-1", "ascii")
 NON_ASCII_VERSION_IDS = ("0.4.1-M\u00fcller", "v2 \u00b5-build \u2014 \u00c5", "\u7248\u672c-3")
+# what `--version-id "$(cat VERSION)"` or "$(git describe; date)" hands over when the command
+# prints more than one line: an identifier with a line break in it
+MULTILINE_VERSION_IDS = ("v1.2\nbuilt by jenkins", "0.4.1\rnightly 2026-09-27", "v3\n#define PI 3")
 VERSION_IDS = ("0.4.1", "0.4.1-12-gdeadbee-dirty", "sim build 7", "x")
 OPEN_ERRNOS = ("ENOENT", "ENOENT", "EACCES", "EMFILE", "EIO")
 WRITE_ERRNOS = ("EPIPE", "ENOSPC", "EIO", "EAGAIN")
@@ -152,6 +155,12 @@ def make_plan(tree, seed, i, tier="quick"):
         sel["user_main"]["non_ascii"] = late.random() < 0.5 and env["encoding"] != "ascii"
     if sel.get("version_id") is not None and late.random() < 0.15:
         sel["version_id"] = late.choice(NON_ASCII_VERSION_IDS)
+    elif sel.get("version_id") is not None and late.random() < 0.08:
+        sel["version_id"] = late.choice(MULTILINE_VERSION_IDS)
+    if sel.get("user_main") and late.random() < 0.3:
+        sel["user_main"]["dup_include"] = True
+    # file descriptor 2 closed (`2>&-`, daemonised build agents): CPython then sets sys.stderr to None
+    env["stderr_closed"] = late.random() < 0.1
     return {
         "seed": seed,
         "run": i,
@@ -176,6 +185,11 @@ def _write_fault(rng, mode, handled_only=False):
     else:
         f["kind"] = rng.choice(WRITE_ERRNOS)
         f["persistent"] = rng.random() < 0.6
+        if rng.random() < 0.12:
+            # a device with a write-back cache: write(2) keeps succeeding, the error is reported
+            # by close(2) / fsync(2) - to whoever asks
+            f["kind"] = "deferred"
+            f["errno"] = rng.choice(("EDQUOT", "ENOSPC", "EIO"))
     return f
 
 
@@ -336,6 +350,7 @@ def sweep_variants(plan, twin, tier):
         out.append([{"op": "write", "where": "at_byte", "at_byte": at, "kind": "EPIPE", "persistent": True}])
         out.append([{"op": "write", "where": "at_byte", "at_byte": at, "kind": "EIO", "persistent": False}])
         out.append([{"op": "write", "where": "at_byte", "at_byte": at, "kind": "short"}])
+        out.append([{"op": "write", "where": "at_byte", "at_byte": at, "kind": "deferred", "errno": ("EDQUOT", "ENOSPC", "EIO")[(at // max(1, bufsize)) % 3]}])
     # ... and a fine grid over the end of the output (the last text chunk and the one before it)
     grid = (1, 64, 512, 1024, 2048, 3072, 4095, 4096, 4097, 4608, 5120, 6144, 7168, 8191, 8192, 8193, 9216, 12288, 16384) if tier == "quick" else tuple(range(1, 3 * 8192, 128))
     for dist in grid:
@@ -363,6 +378,9 @@ def sweep_variants(plan, twin, tier):
     for enc in ENCODINGS:
         if enc != (plan["env"].get("encoding") or "utf-8"):
             variants.append({"variant": "sweep-encoding-%s" % enc, "faults": [], "env": {"encoding": enc}})
+    variants.append({"variant": "sweep-stderr-closed", "faults": [], "env": {"stderr_closed": not plan["env"].get("stderr_closed", False)}})
+    for g in GIT_HANDLED:
+        variants.append({"variant": "sweep-stderr-closed-git-%s" % g, "faults": [], "env": {"stderr_closed": True, "git": g}})
     variants.append({"variant": "sweep-invoked-via-symlink", "faults": [], "env": {"invoked_via_symlink": not plan["env"].get("invoked_via_symlink", False)}})
     variants.append({"variant": "sweep-symlink-farm", "faults": [], "env": {"symlink_farm": not plan["env"].get("symlink_farm", False)}})
     variants.append({"variant": "sweep-strays", "faults": [], "env": {"extra_entries": {UNITS_DIR: list(STRAY), CONSTANTS_DIR: list(STRAY), "au/code/au": list(STRAY[:4])}}})
@@ -578,6 +596,11 @@ def cli_shape_plans(tree, seed, tier):
             {"units": [u2], "constants": [], "io": True, "version_id": NON_ASCII_VERSION_IDS[0], "_encoding": "latin-1"},
             {"units": [u2], "constants": [], "io": False, "version_id": NON_ASCII_VERSION_IDS[1], "_encoding": "ascii"},
             {"units": [u1], "constants": [], "io": True, "version_id": NON_ASCII_VERSION_IDS[2]},
+            {"units": [u2], "constants": [], "io": True, "version_id": MULTILINE_VERSION_IDS[0]},
+            {"units": [u3], "constants": [c1], "io": False, "version_id": MULTILINE_VERSION_IDS[1]},
+            {"units": [], "constants": [], "io": True, "version_id": MULTILINE_VERSION_IDS[2], "_user_macros": True},
+            {"units": [u1], "constants": [], "io": True, "user_main": {"style": "quoted", "unit": u2, "dup_include": True}},
+            {"units": [], "constants": [], "io": False, "user_main": {"style": "mixed", "unit": u3, "dup_include": True}},
         ]
     # a name that exists both as a unit and as a constant (standard_gravity today), asked for as both
     for both in sorted(set(tree.units) & set(tree.constants)):
@@ -604,10 +627,11 @@ def cli_shape_plans(tree, seed, tier):
         vid = rng.choice(VERSION_IDS + ("id with  two spaces", "v1.0+meta/branch"))
         full = dict({"main_files": [], "version_id": vid, "opt_order": order}, **sel)
         enc = full.pop("_encoding", "utf-8")
+        um = bool(full.pop("_user_macros", False))
         plans.append({
             "seed": seed, "run": "cli-%d" % n, "hashseed": HASHSEEDS[n % len(HASHSEEDS)], "selection": full,
             "env": {"listdir": {}, "listdir_default": _listdir_spec(rng), "extra_entries": {}, "clock": ["2026-09-26T12:00:00"], "git": "ok:cli", "stdout_mode": "block", "stdout_bufsize": 4096, "crlf": False, "git_repo": "tracked", "encoding": enc},
-            "faults": [], "toolchain": {"a": list(tcs[n % len(tcs)])}, "probe": {"include_order": rng.randrange(1 << 30), "api": []},
+            "faults": [], "toolchain": {"a": list(tcs[n % len(tcs)])}, "probe": {"include_order": rng.randrange(1 << 30), "api": [], "user_macros": um},
         })
     return plans
 
